@@ -3,6 +3,7 @@ package dns
 func init() {
 	vRegister("H_C08_record", H_C08_record)
 	vRegister("H_C08_msg", H_C08_msg)
+	vRegister("H_C08_window", H_C08_window)
 	vRegister("H_C08_opt", H_C08_opt)
 	vRegister("H_C08_vacuity", H_C08_vacuity)
 	vRegister("H_C16_copy_record", H_C16_copy_record)
@@ -85,6 +86,49 @@ func vNameFamily(pfx string, idx int) string {
 }
 
 // H_C08_msg: message level, with shared names and a symbolic Compress flag.
+// H_C08_window: the per-type length prediction around the 16384-octet compression limit. A leading opaque record
+// moves a record of every type that carries names in its RDATA across offset 16384 (in steps, so that each of its
+// names falls on either side), and a following NS record is owned by that RDATA name and points below it: Len must
+// not count a pointer to an offset the packer may not use.
+func H_C08_window() {
+	t := vPickType()
+	c := vU8("c")
+	vAssume(c >= 'a' && c <= 'z')
+	lab := [][]byte{{c, 'b'}, {'e', 'x'}}
+	rr, _, g := vBuildRRWith("r.", t, func(g *vGen) {
+		g.owner = [][]byte{{'o'}}
+		g.fixedLabels = lab
+	})
+	if rr == nil || len(g.nameOffs) == 0 {
+		return // no names in RDATA: nothing to register
+	}
+	rr.Header().Class = ClassINET
+	// record 2 starts at 12 + 11 + pad; its RDATA starts 13 octets later
+	firstName := 12 + 11 + 13 + g.nameOffs[0]
+	lastName := 12 + 11 + 13 + g.nameOffs[len(g.nameOffs)-1]
+	span := lastName - firstName + 12
+	pad := 16384 - lastName - 8 + 3*vChoice("pad", span/3+2)
+	m := new(Msg)
+	m.Compress = true
+	fill := make([]byte, pad)
+	for i := range fill {
+		fill[i] = 'a'
+	}
+	m.Answer = append(m.Answer, &NULL{Hdr: RR_Header{Name: ".", Rrtype: TypeNULL, Class: ClassINET}, Data: string(fill)})
+	m.Answer = append(m.Answer, rr)
+	n := string([]byte{c, 'b', '.', 'e', 'x', '.'})
+	m.Answer = append(m.Answer, &NS{Hdr: RR_Header{Name: n, Rrtype: TypeNS, Class: ClassINET}, Ns: "x." + n})
+	vReach("window-built")
+	want := m.Len()
+	b, err := m.Pack()
+	vObserve("window", t, pad, want, err, len(b))
+	vAssert(err == nil, "pack-has-room")
+	if err != nil {
+		return
+	}
+	vAssert(want >= len(b), "msglen-not-underestimated")
+}
+
 func H_C08_msg() {
 	m := new(Msg)
 	m.Compress = vChoice("compress", 2) == 1
